@@ -177,6 +177,20 @@ def method_oracle(ctx):
                 check('sum-nullable', qv.without_distinct().sum(), sum(vs), [])
                 check('max-nullable', qv.max(), max(vs) if vs else None, [])
                 check('count-distinct', qk.count(), len(set(ks)), [])
+                # the same query key asked with every distinct flag, in both orders (warm SQL / result caches must not mix them up)
+                flags = [None, False, True, None, True, False, None]
+                rng.shuffle(flags)
+                for fl in flags:
+                    got = qk.count() if fl is None else qk.count(distinct=fl)
+                    check('count(distinct=%r)' % fl, got, len(ks) if fl is False else len(set(ks)), [])
+                    got = qv.count() if fl is None else qv.count(distinct=fl)
+                    check('count-nullable(distinct=%r)' % fl, got, len(vs) if fl is False else len(set(vs)), [])
+                for fl in flags:
+                    got = qk.sum() if fl is None else qk.sum(distinct=fl)
+                    check('sum(distinct=%r)' % fl, got, sum(set(ks)) if fl else sum(ks), [])
+                    got = qk.avg() if fl is None else qk.avg(distinct=fl)
+                    base = list(set(ks)) if fl else ks
+                    check('avg(distinct=%r)' % fl, None if got is None else round(got, 9), round(sum(base) / len(base), 9) if base else None, [])
                 check('distinct', sorted(qk.distinct()[:]), sorted(set(ks)), [])
                 check('without_distinct', sorted(qk.without_distinct()[:]), sorted(ks), [])
                 gc = sel(G, 'g.s', mk).without_distinct().group_concat(sep='|')
